@@ -22,8 +22,8 @@ Definition C12_holds (i:c12_in) (o:c12_out) : Prop := o_on o = o_off o.
 (* ---- model output on the canonical observable *)
 Definition TERM : text := [59].                  (* SQLiteImpl.command_terminator = ";" *)
 Definition model_C12 (i:c12_in) : c12_out :=
-  mkOut (option_map observable (run_online lit_c parse_c (i_db i) (i_steps i)))
-        (option_map observable (offline_effect lit_c parse_c (i_db i) (i_start i) (i_steps i)))
+  mkOut (option_map observable (run_online lit_c parse_c untext_c (i_db i) (i_steps i)))
+        (option_map observable (offline_effect lit_c parse_c untext_c (i_db i) (i_start i) (i_steps i)))
         (exec_post TERM (i_raw i)).
 
 (* ---- decidable equality *)
@@ -35,7 +35,10 @@ Definition value_eqb (a b : value) : bool :=
   | VNum x, VNum y => list_eqb N.eqb x y
   | _, _ => false
   end.
-Definition col_eqb (a b : col) : bool := N.eqb (c_name a) (c_name b) && N.eqb (c_type a) (c_type b).
+Definition ovalue_eqb (a b : option value) : bool :=
+  match a, b with Some x, Some y => value_eqb x y | None, None => true | _, _ => false end.
+Definition col_eqb (a b : col) : bool :=
+  N.eqb (c_name a) (c_name b) && N.eqb (c_type a) (c_type b) && ovalue_eqb (c_dflt a) (c_dflt b).
 Definition row_eqb : list value -> list value -> bool := list_eqb value_eqb.
 Definition table_eqb (a b : table) : bool :=
   N.eqb (t_name a) (t_name b) && list_eqb col_eqb (t_cols a) (t_cols b) && list_eqb row_eqb (t_rows a) (t_rows b).
@@ -80,7 +83,8 @@ Definition db_atb (d:db) (start : list N) : bool :=
   | _ :: _, Some l => list_eqb N.eqb l start
   | _, _ => false
   end.
-Definition no_tab_in_literalsb (steps : list step) : bool := forallb (fun v => no_tab (lit_c v)) (steps_values steps).
+Definition no_tab_in_literalsb (steps : list step) : bool :=
+  forallb (fun v => no_tab (lit_c v)) (steps_values steps) && forallb (fun w => no_tab (untext_c w)) (steps_texts steps).
 Definition lits_roundtripb (steps : list step) : bool := forallb (fun v => value_eqb (parse_c (lit_c v)) v) (steps_values steps).
 (* the starting database is at `start` (no version table at base), the heads are never empty between two steps,
    and a run from base has at least one step *)
